@@ -74,6 +74,7 @@ func nativePrintf(e *Evaluator, args []*Value, this *Value) (*Value, error) {
 				return nil, fmt.Errorf("width specifier too large")
 			}
 
+			verifCharge(widthSpec/32 + 1)
 			i = numEnd
 			if numStr[0] == '0' {
 				padChar = "0"
